@@ -14,16 +14,27 @@ MODES = ("raise", "drop", "uneven", "ignore")
 # abstract seed id (spec) -> base_seed handed to the implementation
 SEEDS = {1: 0, 2: 12345, 3: 2 ** 31 - 1}
 MAX_TRACE_EPOCH = 4  # SamplerTrace.cfg: MaxEpoch
+MAX_LIVE = 3  # SamplerTrace.cfg / Sampler_sim.cfg: Features "live3" = iterator slots 0..2 per sampler object
 
+# (name, cfg, actions that must be covered) - or, for the REJECTED shared-buffer design with two live
+# iterators, (name, cfg, None): TLC must refute it (one of REFUTED_BY violated)
+REFUTED_BY = ("LivePrefixes", "PathIndependent", "WellFormedLists", "SliceOfFull")
+SHARED = [("sharedbuf-serial", "Sampler_sharedbuf_serial.cfg", ["DoConstruct", "DoBeginIter", "DoBeginGet", "DoYield",
+                                                                 "DoEnd", "DoAbandon"]),
+          ("sharedbuf", "Sampler_sharedbuf.cfg", None)]
 DESIGN = {
     "quick": [("wide", "Sampler_wide_quick.cfg", ["DoConstruct", "DoBeginIter", "DoYield", "DoEnd"]),
               ("free", "Sampler_free_quick.cfg", ["DoConstruct", "DoBeginIter", "DoYield", "DoEnd"]),
               ("full", "Sampler_full_quick.cfg", ["DoConstruct", "DoBeginIter", "DoBeginFull", "DoYield", "DoEnd"]),
-              ("paths", "Sampler_paths_quick.cfg", ["DoConstruct", "DoBeginIter", "DoBeginGet", "DoYield", "DoEnd"])],
+              ("paths", "Sampler_paths_quick.cfg", ["DoConstruct", "DoBeginIter", "DoBeginGet", "DoYield", "DoEnd"]),
+              ("live", "Sampler_live_quick.cfg", ["DoConstruct", "DoBeginIter", "DoBeginGet", "DoYield", "DoEnd",
+                                                  "DoAbandon"])] + SHARED,
     "thorough": [("wide", "Sampler_wide_thorough.cfg", ["DoConstruct", "DoBeginIter", "DoYield", "DoEnd"]),
                  ("free", "Sampler_free_thorough.cfg", ["DoConstruct", "DoBeginIter", "DoYield", "DoEnd"]),
                  ("full", "Sampler_full_thorough.cfg", ["DoConstruct", "DoBeginIter", "DoBeginFull", "DoYield", "DoEnd"]),
-                 ("paths", "Sampler_paths_thorough.cfg", ["DoConstruct", "DoBeginIter", "DoBeginGet", "DoYield", "DoEnd"])],
+                 ("paths", "Sampler_paths_thorough.cfg", ["DoConstruct", "DoBeginIter", "DoBeginGet", "DoYield", "DoEnd"]),
+                 ("live", "Sampler_live_thorough.cfg", ["DoConstruct", "DoBeginIter", "DoBeginGet", "DoYield", "DoEnd"])]
+    + SHARED,
 }
 
 
@@ -33,7 +44,8 @@ def run_design(ctx):
 
     def job(name, cfg):
         try:
-            results[name] = tlc.run(MOD, os.path.join(SPECS, cfg), workers=8, timeout=3000)
+            results[name] = tlc.run(MOD, os.path.join(SPECS, cfg), workers=2 if name.startswith("sharedbuf") else 8,
+                                    timeout=3000)
         except Exception as ex:
             errs.append(ex)
 
@@ -44,8 +56,20 @@ def run_design(ctx):
         t.join()
     if errs:
         raise errs[0]
-    for name, _, actions in DESIGN[ctx.tier]:
+    for name, cfg, actions in DESIGN[ctx.tier]:
         res = results[name]
+        if actions is None:
+            # several live iterators over ONE refilled buffer: the order of an epoch would depend on the
+            # interleaving - TLC must find that (otherwise the live universe is too small to tell)
+            if res.ok:
+                raise MachineryError("Sampler/%s: TLC did not refute the shared-buffer design (%d states)" % (
+                    name, res.distinct))
+            if not any(inv in (res.error or "") for inv in REFUTED_BY):
+                raise tlc.TLCFailure("Sampler/%s: expected a violation of one of %r, got %s\n%s" % (
+                    name, REFUTED_BY, res.error, res.stdout[-2000:]))
+            ctx.add_tlc("Sampler/%s (%s: expected violation, found: %s)" % (
+                name, cfg, (res.error or "").strip().splitlines()[0]), res, count_states=False)
+            continue
         tlc.require_ok(res, "Sampler/" + name)
         tlc.require_covered(res, actions, "Sampler/" + name)
         ctx.add_tlc("Sampler/" + name, res)
@@ -56,8 +80,8 @@ def run_design(ctx):
 
 
 def simulate_skeletons(ctx, num, seed):
-    """Random behaviours of the full machine (free interleaving, re-construction, get/full) as
-    driver skeletons.  TLC prints one record per candidate last step; keep one per behaviour."""
+    """Random behaviours of the full machine (free interleaving, re-construction, get/full, up to
+    MAX_LIVE iterators of one sampler object alive at once) as driver skeletons.  TLC prints one record per candidate last step; keep one per behaviour."""
     res = tlc.run(MOD, os.path.join(SPECS, "Sampler_sim.cfg"), simulate="num=%d" % num, depth=41,
                   seed=seed, workers=4, timeout=600)
     tlc.require_ok(res, "Sampler/simulate")
@@ -91,7 +115,7 @@ class World:
         self.dist = dist
         self.fake_world = fake_world if fake_world is not None else W
         self.smp = {}
-        self.its = {}
+        self.its = {}  # rank -> {slot: live iterator}; a new iterator takes the lowest free slot
         self.events = []
         self.diverged = None
         self.failed = None
@@ -101,8 +125,16 @@ class World:
         return FakeDist(world_size=self.fake_world, available=self.dist != "unavail",
                         initialized=self.dist not in ("uninit", "unavail"))
 
-    def _ev(self, op, rank, a=0, b=0, raised=False):
-        self.events.append(dict(op=op, rank=rank, a=a, b=b, raised=raised))
+    def _ev(self, op, rank, a=0, b=0, raised=False, h=0):
+        self.events.append(dict(op=op, rank=rank, h=h, a=a, b=b, raised=raised))
+
+    def live(self, rank):
+        """slots of the live iterators of the rank's sampler object"""
+        return sorted(self.its.get(rank, ()))
+
+    def free_slot(self, rank):
+        used = self.its.get(rank, {})
+        return next((h for h in range(MAX_LIVE) if h not in used), None)
 
     def construct(self, rank, seed_id, e0):
         from pydrobert.torch.data import EpochRandomSampler, EpochSequentialSampler
@@ -132,49 +164,59 @@ class World:
         return not raised
 
     def begin(self, op, rank, epoch=0):
+        """a new iterator of the rank's sampler object (earlier ones may still be alive); returns its slot"""
         s = self.smp[rank]
+        h = self.free_slot(rank)
+        if h is None:
+            raise MachineryError("driver bug: more than %d live iterators on rank %d" % (MAX_LIVE, rank))
         try:
             if op == "iter":
                 before = s.epoch
-                self.its[rank] = iter(s)
-                self._ev("iter", rank, before)
+                new = iter(s)
+                self._ev("iter", rank, before, h=h)
             elif op == "get":
-                self.its[rank] = iter(s.get_samples_for_epoch(epoch))
-                self._ev("get", rank, epoch)
+                new = iter(s.get_samples_for_epoch(epoch))
+                self._ev("get", rank, epoch, h=h)
             else:
-                self.its[rank] = iter(s.get_samples_for_epoch_ignoring_distributed(epoch))
-                self._ev("full", rank, epoch)
+                new = iter(s.get_samples_for_epoch_ignoring_distributed(epoch))
+                self._ev("full", rank, epoch, h=h)
         except Exception as ex:
             self.failed = "%s(rank=%d, epoch=%d): %r" % (op, rank, epoch, ex)
             raise ImplError(self.failed)
+        self.its.setdefault(rank, {})[h] = new
+        return h
 
-    def step(self, rank):
-        """next() on the live iterator of `rank`: records a yield or an end event; returns the op"""
+    def step(self, rank, h=0):
+        """next() on the live iterator in slot h of `rank`: records a yield or an end event; returns the op"""
+        if h not in self.its.get(rank, ()):
+            raise MachineryError("driver bug: no live iterator in slot %d of rank %d" % (h, rank))
         try:
-            x = next(self.its[rank])
+            x = next(self.its[rank][h])
         except StopIteration:
-            self.its.pop(rank)
+            self.its[rank].pop(h)
             try:
                 n = len(self.smp[rank])
             except Exception as ex:
                 self.failed = "len(rank=%d): %r" % (rank, ex)
                 raise ImplError(self.failed)
-            self._ev("end", rank, n)
+            self._ev("end", rank, n, h=h)
             return "end"
         except Exception as ex:
-            self.failed = "next(rank=%d): %r" % (rank, ex)
+            self.failed = "next(rank=%d, slot=%d): %r" % (rank, h, ex)
             raise ImplError(self.failed)
-        self._ev("yield", rank, int(x))
+        self._ev("yield", rank, int(x), h=h)
         return "yield"
 
-    def drain(self, rank):
-        while self.step(rank) == "yield":
+    def drain(self, rank, h=0):
+        while self.step(rank, h) == "yield":
             pass
 
-    def abandon(self, rank):
-        """the consumer drops the live iterator without exhausting it"""
-        self.its.pop(rank)
-        self._ev("abandon", rank)
+    def abandon(self, rank, h=0):
+        """the consumer drops a live iterator without exhausting it"""
+        if h not in self.its.get(rank, ()):
+            raise MachineryError("driver bug: no live iterator in slot %d of rank %d" % (h, rank))
+        self.its[rank].pop(h)
+        self._ev("abandon", rank, h=h)
 
     def run_skeleton(self, ops):
         """Execute a TLC behaviour's operations.  If the implementation does something else than
@@ -187,24 +229,27 @@ class World:
 
     def _run_skeleton(self, ops):
         for o in ops:
-            op, r = o["op"], o["rank"]
+            op, r, h = o["op"], o["rank"], o.get("h", 0)
             if op == "construct":
                 self.construct(r, o["a"], o["b"])
             elif op in ("iter", "get", "full"):
                 if r not in self.smp:
                     self.diverged = "no sampler object for %s" % op
                     return
+                if self.free_slot(r) != h:
+                    self.diverged = "slot %r is not the lowest free slot" % h
+                    return
                 self.begin(op, r, o["a"])
             elif op == "abandon":
-                if r not in self.its:
+                if h not in self.its.get(r, ()):
                     self.diverged = "no live iterator to abandon"
                     return
-                self.abandon(r)
+                self.abandon(r, h)
             else:
-                if r not in self.its:
+                if h not in self.its.get(r, ()):
                     self.diverged = "no live iterator for %s" % op
                     return
-                did = self.step(r)
+                did = self.step(r, h)
                 if did != op:
                     self.diverged = "implementation did %s where the behaviour has %s" % (did, op)
                     return
